@@ -37,7 +37,16 @@ func transferProfile(tier Tier) *explore.Profile {
 	return &explore.Profile{
 		Name:   "transfer",
 		EnvCfg: ledgerEnv(o.shards),
-		Seeds:  seedsOf("fung", "sft", "mixed", "frozen", "refunds", "refunds-with-call"),
+		Seeds: func(env *world.Env) []explore.SeedState {
+			out := seedsOf("fung", "sft", "mixed", "frozen", "refunds", "refunds-with-call")(env)
+			// an SFT created with a zero-length hash (legal), spread over three holders
+			b := uni.SeedBuilder(env, "fung")
+			b.Must(uni.SetRole(uni.A0, uni.S, uni.NFTRoles...))
+			b.Must(uni.Call(uni.A0, uni.A0, vmcommon.BuiltInFunctionESDTNFTCreate, uni.S, uni.Big(6), []byte("n"), uni.Big(100), []byte{}, []byte("a"), []byte("u")))
+			b.Must(uni.NFTTransfer(uni.A0, uni.B0, uni.S, 1, 2))
+			b.Must(uni.NFTTransfer(uni.A0, uni.C1, uni.S, 1, 1)).DeliverAll()
+			return append(out, explore.SeedState{Name: "sft-empty-hash", W: b.W, Legs: b.Legs, Failed: b.Failed})
+		},
 		Menu: func(w *world.World) []world.Action {
 			acts := transferMenu(w, o)
 			acts = append(acts, deliveries(w)...)
